@@ -1,0 +1,15 @@
+//go:build verif
+
+package keeper
+
+// Contracts for x/reporter/keeper, read by /verif/bin/govc. Comment-only: compiled
+// only with -tags verif and adds no code.
+
+// 43200000000000 ns = 12 hours.
+
+//@ func (k Keeper).TrackStakeChange(ctx) (err)
+//@ requires [expiration_recorded] has(reporter.Tracker) ==> reporter.Tracker.Expiration != nil
+//@ modifies reporter.Tracker
+//@ ensures [baseline_kept_until_expiry] has(old(reporter.Tracker)) && blocktime(ctx) < old(deref(reporter.Tracker.Expiration)) ==> err == nil && reporter.Tracker == old(reporter.Tracker)
+//@ ensures [baseline_refreshed_after_expiry] err == nil && has(old(reporter.Tracker)) && blocktime(ctx) >= old(deref(reporter.Tracker.Expiration)) ==> reporter.Tracker.Amount == staking.bonded && reporter.Tracker.Expiration != nil && deref(reporter.Tracker.Expiration) == blocktime(ctx) + 43200000000000
+//@ ensures [no_baseline_no_write] !has(old(reporter.Tracker)) ==> err != nil && !has(reporter.Tracker)
